@@ -54,6 +54,9 @@ mod threads;
 #[cfg_attr(docsrs, doc(cfg(feature = "trc")))]
 pub mod trc;
 mod write_mode;
+#[cfg(flexi_logger_verif)]
+#[doc(hidden)]
+pub mod verif_hooks;
 
 pub mod code_examples;
 pub mod filter;
